@@ -399,7 +399,8 @@ impl RecvStream {
         let mut g = self.log.lock().unwrap();
         g.reads += 1;
         if !g.stops.is_empty() {
-            return Poll::Ready(Err(ReadError::ClosedStream));
+            // real quinn 0.11: stop() marks the stream as completely read (checked by quinnreal)
+            return Poll::Ready(Ok(None));
         }
         let avail = (g.data.len() - g.pos).min(max);
         if avail == 0 {
